@@ -195,10 +195,10 @@ def run(ctx):
                                                                       os.path.join(data, 'ref.bin'), kind=kind)
                             call()
                         else:
-                            ref = 'frame.parquet'
+                            # (the extension is recognised whatever its case)
+                            ref = rng.choice(['frame.parquet', 'frame.parquet', 'Frame.PARQUET', 'frame.v2.Parquet'])
                             ops.append(None)      # frames are outside the model: oracle only
-                            call = lambda: rt.assertDataFrameCorrect(df, os.path.join(data, 'frame.parquet'),
-                                                                     kind=kind)
+                            call = lambda ref=ref: rt.assertDataFrameCorrect(df, os.path.join(data, ref), kind=kind)
                             call()
                         oc = 2 if regen_expected else 0
                     except Failed:
@@ -323,7 +323,7 @@ def run(ctx):
             m_table = {dopt(k, dstr): bool(b) for k, b in mo[2]}
             i_fs = {}
             for n, (content, _) in final.items():
-                if n.endswith('.parquet'):
+                if n.lower().endswith('.parquet'):
                     continue
                 i_fs[n] = content.decode('utf-8') if n.endswith('.txt') else content.decode('latin-1')
             if m_out != outcomes or m_fs != i_fs or m_table != table or bool(mo[3]) != quiet:
